@@ -383,6 +383,8 @@ pub proof fn lemma_pow2i_succ(n: int) requires n >= 0 ensures pow2i(n + 1) == 2 
 /// size assumption: a big integer has fewer than 2^60 decimal digits
 #[verifier::external_body]
 pub proof fn lemma_size_digits(n: &BigUint) ensures ndigits(n@ as int) < 0x1000_0000_0000_0000 {}
+#[verifier::external_body]
+pub proof fn lemma_size_digits_int(n: &BigInt) ensures ndigits(iabs(n@)) < 0x1000_0000_0000_0000 {}
 
 
 impl BigUint {
